@@ -17,6 +17,8 @@ var vsymErrS3 = errors.New("vsym: injected S3 failure")
 type vsymS3 struct {
 	objs    map[string][]byte
 	faulty  bool     // every upload asks the solver whether it fails
+	budget  int      // when > 0: at most this many injected failures
+	failed  int
 	puts    []string // keys written, in order
 	gets    []string
 	onCall  func(op, key string) // scheduling / monitoring hook
@@ -36,7 +38,8 @@ func (s *vsymS3) put(op, key string, body []byte) error {
 	if s.crashed {
 		return vsymErrS3
 	}
-	if s.faulty && vsym_Bool("fail:"+op) {
+	if s.faulty && (s.budget == 0 || s.failed < s.budget) && vsym_Bool("fail:"+op) {
+		s.failed++
 		return vsymErrS3
 	}
 	s.objs[key] = append([]byte(nil), body...)
@@ -125,15 +128,28 @@ type vsymAck struct {
 // vsymProduce mirrors handleProduce's per-partition rule with flush-on-ack and acks != 0:
 // decode, append, flush; acknowledged iff all three succeed.
 func vsymProduce(ctx context.Context, l *PartitionLog, records []byte) (vsymAck, bool) {
+	return vsymProduceAs(ctx, l, records, "")
+}
+
+// vsymProduceAs names the producer: its steps become scheduling events (append:<who>,
+// flush:<who>) whose global order a native replay follows.
+func vsymProduceAs(ctx context.Context, l *PartitionLog, records []byte, who string) (vsymAck, bool) {
 	batch, err := NewRecordBatchFromBytes(records)
 	if err != nil {
 		return vsymAck{}, false
+	}
+	if who != "" {
+		vsym_Event("append:" + who)
 	}
 	res, err := l.AppendBatch(ctx, batch)
 	if err != nil {
 		return vsymAck{}, false
 	}
-	if err := l.Flush(ctx); err != nil {
+	if who != "" {
+		vsym_Event("flush:" + who)
+	}
+	err = l.Flush(ctx)
+	if err != nil {
 		return vsymAck{}, false
 	}
 	return vsymAck{base: res.BaseOffset, last: res.LastOffset, bytes: append([]byte(nil), batch.Bytes...)}, true
